@@ -676,6 +676,8 @@ ldb_version_update_stats(ldb_version_t *ver, const ldb_getstats_t *stats) {
   ldb_filemeta_t *f = stats->seek_file;
 
   if (f != NULL) {
+    LCDB_ACC("seekstats", ver->vset, 1);
+
     f->allowed_seeks--;
 
     if (f->allowed_seeks <= 0 && ver->file_to_compact == NULL) {
@@ -695,6 +697,8 @@ ldb_version_record_read_sample(ldb_version_t *ver, const ldb_slice_t *ikey) {
 
   if (!ldb_pkey_import(&pkey, ikey))
     return 0;
+
+  LCDB_ACC("vcurrent", ver->vset, 0);
 
   state.stats.seek_file = NULL;
   state.stats.seek_file_level = 0;
@@ -1107,6 +1111,8 @@ ldb_versions_append_version(ldb_versions_t *vset, ldb_version_t *v) {
   if (vset->current != NULL)
     ldb_version_unref(vset->current);
 
+  LCDB_ACC("vcurrent", vset, 1);
+
   vset->current = v;
 
   ldb_version_ref(v);
@@ -1184,11 +1190,13 @@ ldb_versions_destroy(ldb_versions_t *vset) {
 
 uint64_t
 ldb_versions_new_file_number(ldb_versions_t *vset) {
+  LCDB_ACC("filenum", vset, 1);
   return vset->next_file_number++;
 }
 
 void
 ldb_versions_reuse_file_number(ldb_versions_t *vset, uint64_t file_number) {
+  LCDB_ACC("filenum", vset, 1);
   if (vset->next_file_number == file_number + 1)
     vset->next_file_number = file_number;
 }
@@ -1689,6 +1697,7 @@ ldb_versions_recover(ldb_versions_t *vset, int *save_manifest) {
 
 void
 ldb_versions_mark_file_number(ldb_versions_t *vset, uint64_t number) {
+  LCDB_ACC("filenum", vset, 1);
   if (vset->next_file_number <= number)
     vset->next_file_number = number + 1;
 }
